@@ -205,13 +205,13 @@ PROPS["C13"] = {
     "design_ref": "DESIGN.md §3 C13",
     "technique": "inductive one-step contracts of the real serialize_record_value from every well-formed state shape of a 3-field record (states built in place), Kani; end() on its error paths",
     "level_text": "Bounded deductive check, exhaustive at its size: the record serializer's core step serialize_record_value is verified from EVERY well-formed (state shape, presented index) pair of a "
-                  "3-field record (17 pairs; buffered bytes, value and pool content symbolic): the next expected field is written followed by every contiguous already-buffered successor in schema order, "
+                  "3-field record (17 pairs; buffered bytes, value and pool content symbolic; plus two shapes where the early field's encoding is EMPTY - a null field - which must still be recorded as presented, rejected when presented twice, and flushed in turn): the next expected field is written followed by every contiguous already-buffered successor in schema order, "
                   "current_idx / expected_fields advance in step, non-contiguous buffers are kept, a later field is buffered without output, a field presented twice is Err. Because each step is proved "
                   "from any state shape and re-establishes the invariant, any presentation order of the three fields is covered. end(): only the missing-required-field error paths are discharged.",
     "level_note": "The name->index step field_idx is HashMap-based and NOT under contract (A2): the step takes the index it would yield. end()'s Ok paths (omitted nullable field encoded as null, "
                   "remaining buffers flushed) exceed 24 GB of solver memory and are not decided; records with more than 3 fields, nested records, the SerializeMap presentation are not covered. A1 A2 A4 A8 A10.",
     "assumptions": [A1, A2, A4, A7, A8],
-    "explanation": "Invariant INV of RecordState: current_idx <= n, expected_fields == fields[current_idx..], buffers[i] is None for i <= current_idx. 17 step harnesses + 2 end() error-path harnesses; "
+    "explanation": "Invariant INV of RecordState: current_idx <= n, expected_fields == fields[current_idx..], buffers[i] is None for i <= current_idx. 17 step harnesses + 2 zero-length-encoding step harnesses + 2 end() error-path harnesses; "
                    "each asserts INV afterwards and that every buffer returned to the pool is empty.",
     "not_decided": ["field_idx (name lookup; unknown / duplicate detection by name)", "end(): omitted null / union-with-null fields encoded as the null branch; flushing of remaining buffers on the Ok path",
                     "records with more than 3 fields; nested out-of-order records sharing the pool; map presentation"],
@@ -225,10 +225,10 @@ PROPS["C14"] = {
                   "end() failing with a field still buffered (the buffer is handed back by KindRecord::drop), every buffer sitting in the configuration's pools is empty - so the `assert!(v.is_empty())` "
                   "guarding the next pop cannot fire and no stale bytes can reach a later record. Since every step re-establishes the invariant from an arbitrary pool satisfying it, histories of any length follow.",
     "level_note": "The probe-equality formulation (used configuration vs fresh configuration on whole serializations) does not finish under CBMC and is replaced by the invariant; the buffered-bytes "
-                  "sequence path (seq_or_tuple.rs buffered_bytes / Drop) and sink I/O errors are not covered; Drop on the success path and end()'s Ok paths are not decided. A1 A2 A4 A8.",
+                  "sequence path (seq_or_tuple.rs buffered_bytes / end / Drop) has its own step contracts (buffer of <= 2 bytes: the constructor pops an empty buffer, end and Drop hand it back empty); sink I/O errors are not covered; Drop on the success path and end()'s Ok paths are not decided. A1 A2 A4 A8.",
     "assumptions": [A1, A2, A4, A7, A8],
-    "explanation": "pool_wf := all of field_reordering_buffers and field_reordering_super_buffers are empty vectors. Asserted at the end of every harness of unit record_steps.",
-    "not_decided": ["whole-serialization probe equality on a reused configuration", "seq_or_tuple::buffered_bytes pool use", "failures injected by the sink", "Drop after a successful end()"],
+    "explanation": "pool_wf := all of field_reordering_buffers and field_reordering_super_buffers are empty vectors. Asserted at the end of every harness of unit record_steps, and by c02_seq_buffered_bytes_end_and_drop / c14_buffered_bytes_constructor (unit seq_steps).",
+    "not_decided": ["whole-serialization probe equality on a reused configuration", "failures injected by the sink", "Drop after a successful end()"],
 }
 
 PROPS["C06"] = {
